@@ -515,25 +515,30 @@ class URL:
             )
         return ret
 
+    def _cmp_val(self) -> SplitURLType:
+        # same normalization as __eq__ and __hash__
+        path = "/" if not self._path and self._netloc else self._path
+        return (self._scheme, self._netloc, path, self._query, self._fragment)
+
     def __le__(self, other: object) -> bool:
         if type(other) is not URL:
             return NotImplemented
-        return self._val <= other._val
+        return self._cmp_val() <= other._cmp_val()
 
     def __lt__(self, other: object) -> bool:
         if type(other) is not URL:
             return NotImplemented
-        return self._val < other._val
+        return self._cmp_val() < other._cmp_val()
 
     def __ge__(self, other: object) -> bool:
         if type(other) is not URL:
             return NotImplemented
-        return self._val >= other._val
+        return self._cmp_val() >= other._cmp_val()
 
     def __gt__(self, other: object) -> bool:
         if type(other) is not URL:
             return NotImplemented
-        return self._val > other._val
+        return self._cmp_val() > other._cmp_val()
 
     def __truediv__(self, name: str) -> "URL":
         if not isinstance(name, str):
